@@ -354,6 +354,17 @@ func c13Workload(run *vlib.Run, ts []*vlib.Target, nPolicies, rounds int) {
 					t := targetByName(ts, s.Arch)
 					p := s.Policy() // distinct value
 					before := vlib.SpecOf(p, s.Arch)
+					if (k+g)%9 == 4 {
+						// history: the groups are first assembled on their own through the exported method (whatever that gives - on
+						// the pinned tree it needs an architecture it does not have), then the policy is compiled as ever
+						for gi := range p.Syscalls {
+							func() {
+								defer func() { recover() }()
+								p.Syscalls[gi].Assemble(p.DefaultAction)
+							}()
+						}
+						run.Count("policies_whose_groups_were_assembled_on_their_own_first", 1)
+					}
 					c := vlib.Compile(p, t)
 					run.Count("compilations", 1)
 					d0 := progDigest(c.Ins, c.Err)
